@@ -64,6 +64,19 @@ EXPLANATION = ("Lean theorems over the reals about SnowModel/Flake.lean + differ
                "Snowflake.run on whole trajectories")
 PARALLEL = True
 
+# --- regeneration tie (harness/gentie.py): the formulas of the hand model SnowModel/Flake.lean are re-derived
+# from /repo's source on every run and proved equal to the generated text (lean/SnowProofs/Props/GenTie/)
+import gentie  # noqa: E402
+THEOREMS = THEOREMS + gentie.theorems("Flake")
+extra_lean_targets = list(globals().get("extra_lean_targets", [])) + [gentie.module("Flake")]
+TRUSTED = TRUSTED + ["harness/translate.py formula extraction (single assignments of the run loop -> Lean definitions; "
+                     "anything outside its tiny language is a TranslatorError)"]
+
+
+def regenerate():
+    gentie.regenerate("Flake")
+
+
 _STASH = {}
 _TOTALS = {"liquid": 0, "nucleation": 0, "solidifying": 0, "runs": 0}
 
